@@ -47,6 +47,10 @@ def rel_cases(rng, quick):
     hv = rng.choice(["total", "light", "charm", "total"])
     if hv == "charm" and kind == "F3":
         hv = "light"   # F3_charm CC crashes on the pinned tree (KeyError 's', C16's business)
+    # the conjugation holds on every target (the isospin rotation treats quarks and antiquarks alike) and in the massive scheme as well
+    ob["TargetDIS"] = rng.choice(["proton", "neutron", "isoscalar", "iron"])
+    if rng.random() < 0.4 and pto <= 1:
+        th.update(FNS="FFNS", NfFF=3)
     out.append(("cc_conjugation", kind + "_" + hv, th, ob, th, dict(ob, ProjectileDIS=ANTI[ob["ProjectileDIS"]]),
                 runs.conj, -1.0 if kind == "F3" else 1.0))
     # (d) equal-charge swap, massless scheme
